@@ -25,7 +25,8 @@ Record obs := mkObs {
 Inductive cop :=
 | CCreate (idx : Z) (m : create_msg)
 | CClaim (who idx secret : Z)
-| CAdv (dts : list Z).
+| CAdv (dts : list Z)
+| CAdvN (n dt : Z).                 (* [n] block boundaries with the same time step (long idle stretches) *)
 
 (** what the harness writes per step: the entries of the full observation that differ from the
     previous one (it reads everything after every step and compares; writing only the changes
@@ -93,6 +94,7 @@ Definition to_op (k : case) (c : cop) : op :=
   | CCreate _ m => Create m
   | CClaim who idx secret => Claim who (id_at k idx) secret
   | CAdv dts => Adv dts
+  | CAdvN n dt => Adv (repeat dt (Z.to_nat n))
   end.
 
 (** ** correspondence: the model state against one observation *)
@@ -248,7 +250,7 @@ Definition p03 (k : case) (po : obs) (c : cop) (o : obs) : Z :=
                    | _, _ => 1
                    end in
         first_nonzero [sm; opv; mv]
-  | CAdv dts =>
+  | CAdv _ | CAdvN _ _ =>
       let due_ok :=
         forallb2 (fun p c : option cobs =>
                     match p with
@@ -332,7 +334,11 @@ Fixpoint check_from (k : case) (s : state) (po : obs) (ws : list (Z * Z)) (steps
       let code := if step_ok s mo then 0 else 1 in
       let corr := if (v_corr v <? 0) && negb (op_wf k c && corr_obs k s' code o) then i else v_corr v in
       let r03 := p03 k po c o in
-      let ws' := match c with CAdv dts => wticks k ws dts | _ => wclaims k po o ws end in
+      let ws' := match c with
+                 | CAdv dts => wticks k ws dts
+                 | CAdvN n dt => wticks k ws (repeat dt (Z.to_nat n))
+                 | _ => wclaims k po o ws
+                 end in
       let r04 := p04 k o ws' in
       let v' := mkV corr
                     (if (v_p03 v <? 0) && negb (r03 =? 0) then i else v_p03 v)
